@@ -11,8 +11,16 @@
 EXTENDS Naturals, Integers, TLC
 CONSTANTS MaxGap,
           WrongOption    \* FALSE: the value returned is the named option's; TRUE: some other option's value
-VARIABLES v, other, forced, minsp, gapIn, sameLine
-vars == <<v, other, forced, minsp, gapIn, sameLine>>
+VARIABLES v, other, forced, minsp, gapIn, sameLine,
+          qt,            \* the pair lies inside a Qt SIGNAL( ) / SLOT( ) macro and use_options_overriding_for_qt_macros is on
+          inTable        \* the named option is one of those the Qt override replaces
+vars == <<v, other, forced, minsp, gapIn, sameLine, qt, inTable>>
+(* options_for_QT.cpp: while space_text() walks the arguments of SIGNAL / SLOT these options are  *)
+(* temporarily set to Remove (Qt compares the normalised signature text); documented by the       *)
+(* option use_options_overriding_for_qt_macros.  The value "configured" there is the override.    *)
+QtRules == {"sp_inside_fparen", "sp_inside_fparens", "sp_paren_paren", "sp_before_comma", "sp_after_comma", "sp_before_byref",
+            "sp_before_unnamed_byref", "sp_after_type", "sp_before_ptr_star", "sp_before_unnamed_ptr_star", "sp_inside_angle"}
+Effective(val, inqt, tab) == IF inqt /\ tab THEN "remove" ELSE val
 IARF == {"ignore", "add", "remove", "force"}
 OrAdd(x) == CASE x = "ignore" -> "add" [] x = "remove" -> "force" [] OTHER -> x
 (* column delta chosen by space_text(); gapIn = orig_col(next) - orig_col_end(first) when both *)
@@ -23,7 +31,7 @@ Apply(av, ms, gi, same) ==
        [] av = "add" -> IF same /\ gi > m THEN gi ELSE m
        [] av = "remove" -> 0
        [] av = "ignore" -> IF same THEN gi ELSE 0
-Returned == IF WrongOption THEN other ELSE v
+Returned == IF WrongOption THEN other ELSE Effective(v, qt, inTable)
 GapOut == Apply(IF forced THEN OrAdd(Returned) ELSE Returned, minsp, gapIn, sameLine)
 (* what the option value promises; sep = the two texts written without a blank would lex        *)
 (* differently (Fusion.tla); the Ignore clause speaks only about pairs that shared a line       *)
@@ -33,7 +41,8 @@ Clause(val, gi, go, same, sep) ==
     [] val = "add"    -> go >= 1
     [] val = "ignore" -> (~same) \/ ((go > 0) <=> (gi > 0)) \/ (sep /\ go >= 1)
 Init == /\ v \in IARF /\ other \in IARF /\ forced \in BOOLEAN /\ minsp \in {1} /\ gapIn \in 0..MaxGap /\ sameLine \in BOOLEAN
+        /\ qt \in BOOLEAN /\ inTable \in BOOLEAN
 Next == UNCHANGED vars
 Spec == Init /\ [][Next]_vars
-ValueObeyed == Clause(v, gapIn, GapOut, sameLine, forced)
+ValueObeyed == Clause(Effective(v, qt, inTable), gapIn, GapOut, sameLine, forced)
 =============================================================================
